@@ -160,6 +160,7 @@ static RunResult run_single(const Plan &plan, Check &check, const std::string &l
 	}
 	RunCtx *ctx = new RunCtx(plan, check, ed, res);
 	K.reset(plan, ctx);
+	K.budget_extra = [ctx]() { long n = ctx->nlines(), b = 0; for (long i = 0; i < n; i++) b += (long) ctx->line((int) i).size() + 1; return 40l * n + 4l * b; };
 	std::vector<std::string> args = plan.argv;
 	if (args.empty()) args.push_back("vi");
 	std::vector<char *> argv;
@@ -194,6 +195,7 @@ static RunResult run_single(const Plan &plan, Check &check, const std::string &l
 	res.probes = K.probes; res.fired = K.fired; res.configured = K.configured;
 	res.unmodelled = K.unmodelled;
 	if (res.has_violation) { res.tail = K.tail_log(40); res.screen = K.vt.dump(); }
+	K.budget_extra = nullptr;
 	K.release_memory();
 	delete ctx;
 	K.client = nullptr;
